@@ -247,8 +247,13 @@ func (s *Solver) check(pc []*Term, extra *Term, timeoutMs int, keep bool) Result
 		s.NUnknown++
 	}
 	s.Time += time.Since(t0)
+	if d := time.Since(t0); d > 2*time.Second && slowLog {
+		fmt.Fprintf(os.Stderr, "  slow query %.1fs -> %s (pc=%d conj, extra size=%d)\n", d.Seconds(), res, len(pc), func() int { if extra != nil { return extra.size }; return 0 }())
+	}
 	return res
 }
+
+var slowLog = false
 
 // Model decides pc ∧ extra and, if sat, evaluates the given terms.
 func (s *Solver) Model(pc []*Term, extra *Term, timeoutMs int, want []*Term) (Result, []*Term) {
